@@ -60,7 +60,9 @@ func (pr *patRouter) ServeHTTP(w http.ResponseWriter, r *http.Request) {
 	reqPath := path.Clean(r.URL.Path)
 	if tree, ok := pr.trees[r.Method]; ok {
 		if result, ok := tree.Search(reqPath); ok {
-			if len(result.Params) > 0 {
+			// a request forwarded by a handler of this router carries the variables of the
+			// outer route in its context, they must not reach a route that binds none
+			if len(result.Params) > 0 || len(pathvar.Vars(r)) > 0 {
 				r = pathvar.WithVars(r, result.Params)
 			}
 			result.Item.(http.Handler).ServeHTTP(w, r)
